@@ -19,3 +19,53 @@ Definition spec_cell (w h ox oy : Z) (o : orient) (x y : Z) : Z * Z :=
   let '(px, py) := rot_cw w h (rotn o) x y in
   let px := if mir o then w - 1 - px else px in
   (ox + px, oy + py).
+
+(* C14: the MIPI-DCS set_address_mode parameter. B7 page-address order (MY), B6 column-address order
+   (MX), B5 page/column exchange (MV), B4 line-address order (bottom-to-top refresh), B3 RGB/BGR,
+   B2 display-data-latch order (right-to-left refresh), B1-B0 zero. Which of MY/MX/MV an orientation
+   needs is fixed by geometry (C01's window lemma proves this table right). *)
+Definition spec_my (o : orient) : bool := match rotn o with D180 | D270 => true | _ => false end.
+Definition spec_mx (o : orient) : bool :=
+  xorb (match rotn o with D90 | D180 => true | _ => false end) (mir o).
+Definition spec_mv (o : orient) : bool := match rotn o with D90 | D270 => true | _ => false end.
+Definition b2z (b : bool) : Z := if b then 1 else 0.
+Definition spec_madctl (bgr : bool) (o : orient) (btt rtl : bool) : Z :=
+  128 * b2z (spec_my o) + 64 * b2z (spec_mx o) + 32 * b2z (spec_mv o)
+  + 16 * b2z btt + 8 * b2z bgr + 4 * b2z rtl.
+
+(* C15: the orientation that shows the picture pre-transformed by one generator, found by geometry
+   alone on a small asymmetric panel (2 x 3, offset (1,2)): the unique orientation among the eight whose
+   cells agree with the pre-transformed picture. *)
+Definition sample_points (lw lh : Z) : list (Z * Z) :=
+  flat_map (fun j => map (fun i => (Z.of_nat i, Z.of_nat j)) (seq 0 (Z.to_nat lw))) (seq 0 (Z.to_nat lh)).
+Definition lsize_of (w h : Z) (o : orient) : Z * Z :=
+  match rotn o with D0 | D180 => (w, h) | _ => (h, w) end.
+Inductive gen := GRot (r : rot) | GFlipH | GFlipV.
+Definition pre_transform (lw lh : Z) (g : gen) (x y : Z) : Z * Z :=
+  (* (lw, lh): logical size under the ORIGINAL orientation *)
+  match g with
+  | GRot r => rot_cw lw lh r x y
+  | GFlipH => (lw - 1 - x, y)
+  | GFlipV => (x, lh - 1 - y)
+  end.
+Definition pair_eqb (a b : Z * Z) : bool := (fst a =? fst b) && (snd a =? snd b).
+Definition shows_pretransformed (o o' : orient) (g : gen) : bool :=
+  let w := 2 in let h := 3 in
+  let '(lw, lh) := lsize_of w h o in
+  let '(lw', lh') := lsize_of w h o' in
+  (* size of the new logical image must be the pre-image size of the transform *)
+  (match g with GRot D90 | GRot D270 => (lw' =? lh) && (lh' =? lw) | _ => (lw' =? lw) && (lh' =? lh) end) &&
+  forallb (fun p => let '(x, y) := p in
+                    let '(x', y') := pre_transform lw lh g x y in
+                    pair_eqb (spec_cell w h 1 2 o' x y) (spec_cell w h 1 2 o x' y'))
+          (sample_points lw' lh').
+Definition eight : list orient :=
+  [ {| rotn := D0; mir := false |}; {| rotn := D0; mir := true |}; {| rotn := D90; mir := false |};
+    {| rotn := D90; mir := true |}; {| rotn := D180; mir := false |}; {| rotn := D180; mir := true |};
+    {| rotn := D270; mir := false |}; {| rotn := D270; mir := true |} ].
+Definition spec_apply_gen (o : orient) (g : gen) : list orient :=
+  filter (fun o' => shows_pretransformed o o' g) eight.
+
+(* C15: angle parsing *)
+Definition spec_angle (a : Z) : option (Z * Z) :=
+  if a mod 90 =? 0 then Some ((a mod 360) / 90, a mod 360) else None.
